@@ -15,8 +15,9 @@ RULE = (
     'atomically); a budget of 0-2 session expiries and 0-1 process crashes that keep the session. Interleaving: '
     'two REAL PresenceResourceService processes (two hostnames, two sessions of the in-memory ZooKeeper) behind the '
     'REAL ResourceService._on_created/_on_deleted/_check_requests; each request handler, each kazoo watch callback '
-    'and each handler.spawn() is a thread that parks at the start of every ZooKeeper operation, a seeded scheduler '
-    'picks which one proceeds (exactly one thread runs at a time, no sleeps); a session expiry / crash can be chosen '
+    'and each handler.spawn() is its own thread of control (greenlet) that parks at the start of every ZooKeeper '
+    'operation, a seeded scheduler picks which one proceeds (exactly one runs at a time, no sleeps; per case one of '
+    'three policies: uniform, one host running ahead, read-to-write windows stretched); a session expiry / crash can be chosen '
     'at any such point: ephemerals vanish, watches fire, the parked handlers of that process die, a fresh process '
     '(new session, or the kept one after a crash) re-reads all still-open requests in shuffled directory order. '
     'After the last action a seeded number of further steps still allows faults, then faults stop and the run is '
@@ -44,6 +45,8 @@ ASSUMPTIONS = [
     'real single-threaded loop; the request/reply files and links are real (temp directory)',
     'PresenceResourceService subclassed only to supply zkclient; retry_request / on_create_request / '
     'on_delete_request are wrapped transparently (call the original, record)',
+    'threads of the real system (service main loop, kazoo callback thread, handler.spawn threads) are greenlets '
+    'switched only at ZooKeeper operations and at contended kazoo locks; logcontext\'s thread-local stack is swapped per task',
     'process exit on session loss + supervisor restart modelled as: parked handlers never perform another '
     'ZooKeeper operation, new process object with a new session (or the saved session id after a crash)',
     'sysinfo.hostname and trace.app.zk._HOSTNAME rebound to the simulated host name; utils.sys_exit rebound to raise',
